@@ -221,7 +221,54 @@ Theorem CONV_elegant_otherwise : forall name ps,
   gen_elegant_convert_element__otherwise name ps = (l <- opt ps "l" PrimFloat.zero ;; Some (drift name l)).
 Proof. exact gen_elegant_convert_element__otherwise_eq. Qed.
 
-(*MORE*)
+(* ---- the line front end *)
+Theorem CONV_bmad_merge_passes : forall ls, gen_bmad_merge_passes merge_fixed ls = merge_all_fixed ls.
+Proof. exact gen_bmad_merge_passes_eq. Qed.
+Theorem CONV_elegant_merge_passes : forall ls, gen_elegant_merge_passes merge_fixed ls = merge_all_fixed ls.
+Proof. exact gen_elegant_merge_passes_eq. Qed.
+(* pinned: the regex of define_element is the text Lines.v [define_header true] models; the AST of
+   merge_delimiter_continued_lines is the one Lines.v [merge_fixed] transcribes (a pin, not a translation) *)
+Theorem CONV_define_element_pattern : gen_define_element_pattern = "([a-z0-9_\.]+)\s*\:\s*([a-z0-9_]+)\s*(\,(.*))?".
+Proof. exact gen_define_element_pattern_eq. Qed.
+Theorem CONV_merge_loop_pinned : gen_merge_delimiter_continued_lines_ast_sha256 = merge_delimiter_continued_lines_ast_sha256_fixed.
+Proof. exact gen_merge_delimiter_continued_lines_ast_sha256_eq. Qed.
+
+(* ---- LatticeJSON (Ops/Json.v), for every payload type and every reading of the opaque value layer *)
+Section LJ.
+Variables (P J V Jv Cls : Type) (class_name : P -> string) (defining_features : P -> list string) (getattr_ : P -> string -> V).
+Variables (feature2nontorch : V -> Jv) (mk_entry : string -> dict Jv -> J) (entry_class : J -> option string).
+Variables (entry_params : J -> option (dict Jv)) (cheetah_class : string -> option Cls) (nontorch2feature : Jv -> V).
+Variable construct : Cls -> string -> dict V -> option P.
+Notation Sv := (lj_sv P J V Jv class_name defining_features getattr_ feature2nontorch mk_entry).
+Notation Ld := (lj_ld P J V Jv Cls entry_class entry_params cheetah_class nontorch2feature construct).
+
+(* latticejson.convert_element: name, class name, {feature: feature2nontorch(getattr(element, feature))} without "name" *)
+Theorem CONV_lj_convert_element : forall n p,
+  gen_lj_convert_element P V Jv class_name defining_features getattr_ feature2nontorch (Lf n p)
+  = Some (n, class_name p,
+          dict_of_items (map (fun f => (f, feature2nontorch (getattr_ p f)))
+                             (filter (fun f => negb (String.eqb f "name")) (defining_features p)))).
+Proof. exact (gen_lj_convert_element_eq P V Jv class_name defining_features getattr_ feature2nontorch). Qed.
+
+(* latticejson.convert_segment is Json.v's REPAIRED [conv] (F11: the name appended to the cell is element.name) on every
+   segment, given that it is so on the sub-segments (open recursion) *)
+Theorem CONV_lj_convert_segment : forall n ts,
+  gen_lj_convert_segment P J V Jv class_name defining_features getattr_ feature2nontorch mk_entry
+    (fun t => Some (conv P J Sv t)) (Sg n ts) = Some (conv P J Sv (Sg n ts)).
+Proof. exact (gen_lj_convert_segment_eq P J V Jv class_name defining_features getattr_ feature2nontorch mk_entry). Qed.
+
+Theorem CONV_lj_parse_element : forall name E LL,
+  gen_lj_parse_element P J V Jv Cls entry_class entry_params cheetah_class nontorch2feature construct name E LL
+  = match lookup E name with Some j => option_map (Lf name) (Ld name j) | None => None end.
+Proof. exact (gen_lj_parse_element_eq P J V Jv Cls entry_class entry_params cheetah_class nontorch2feature construct). Qed.
+
+(* latticejson.parse_segment is one unfolding of Json.v's [parse] (lattices looked up first, then elements) *)
+Theorem CONV_lj_parse_segment : forall f E LL name,
+  gen_lj_parse_segment P J V Jv Cls entry_class entry_params cheetah_class nontorch2feature construct (parse P J Ld f E LL) name E LL
+  = parse P J Ld (S f) E LL name.
+Proof. exact (gen_lj_parse_segment_eq P J V Jv Cls entry_class entry_params cheetah_class nontorch2feature construct). Qed.
+End LJ.
+
 
 Print Assumptions CONV_bmad_convert_element.
 Print Assumptions CONV_elegant_convert_element.
@@ -270,3 +317,11 @@ Print Assumptions CONV_elegant_csrcsben.
 Print Assumptions CONV_elegant_watch.
 Print Assumptions CONV_elegant_charge_wake.
 Print Assumptions CONV_elegant_otherwise.
+Print Assumptions CONV_bmad_merge_passes.
+Print Assumptions CONV_elegant_merge_passes.
+Print Assumptions CONV_define_element_pattern.
+Print Assumptions CONV_merge_loop_pinned.
+Print Assumptions CONV_lj_convert_element.
+Print Assumptions CONV_lj_convert_segment.
+Print Assumptions CONV_lj_parse_element.
+Print Assumptions CONV_lj_parse_segment.
